@@ -87,6 +87,17 @@ def build_sim(src=None, tag="ebpfsim"):
 
 def build_codec():
     cdir = os.path.join(HARNESS, "codec")
+    target = os.path.join(util.BUILD, "cargo", "ebpfcodec")
+    if os.path.realpath(util.REPO) != "/repo":
+        # another source tree (mutation experiments): a private copy of the crate with its own target directory, so
+        # that the shared crate's links are never re-pointed under a check running against /repo at the same time
+        import hashlib
+        import shutil
+        root = os.path.join(util.BUILD, "alt", hashlib.sha256(os.path.realpath(util.REPO).encode()).hexdigest()[:10])
+        alt = os.path.join(root, "harness", "ebpfcodec")
+        shutil.rmtree(alt, ignore_errors=True)
+        shutil.copytree(cdir, alt, symlinks=True, ignore=shutil.ignore_patterns("target", "repo"))
+        cdir, target = alt, os.path.join(root, "cargo", "ebpfcodec")
     links = {
         "ebpf_obj.rs": "proxy_agent/src/redirector/linux/ebpf_obj.rs",
         "constants.rs": "proxy_agent/src/common/constants.rs",
@@ -103,11 +114,11 @@ def build_codec():
             os.symlink(want, p)
     t = util.Timer()
     p = util.sh(["cargo", "build", "--offline", "--quiet", "--release"], cwd=cdir,
-                env={"CARGO_NET_OFFLINE": "true", "CARGO_TERM_COLOR": "never"}, timeout=900, check=False)
+                env={"CARGO_NET_OFFLINE": "true", "CARGO_TERM_COLOR": "never", "CARGO_TARGET_DIR": target}, timeout=900, check=False)
     if p.returncode != 0:
         raise util.ToolError("cargo build of harness/ebpf/codec failed:\n%s" % (p.stdout or "")[-4000:])
     util.log("built harness/ebpf/codec in %ss" % t.s())
-    return os.path.join(util.BUILD, "cargo", "ebpfcodec", "release", "verif-ebpfcodec")
+    return os.path.join(target, "release", "verif-ebpfcodec")
 
 
 class Proc:
